@@ -4,7 +4,7 @@ sys.path.insert(0, os.path.dirname(__file__))
 from _common import main
 import vbs_common as V
 
-BOUND = 'one file object re-used for 4 files in a row with fresh writers, and with-blocks entered on a finalised writer; every sequence of 1..3 finalisations from {close, context-manager exit} x VbsWriter/IpmWriter x blocked/unblocked x BytesIO/real temp file x 5 record sets (empty, small, >1012 bytes, ending on a block edge, many)'
+BOUND = 'finalisations reached inside a with-block (1..3 of close / nested with / exit), then the block exit, then more; one file object re-used for 4 files in a row with fresh writers, and with-blocks entered on a finalised writer; every sequence of 1..3 finalisations from {close, context-manager exit} x VbsWriter/IpmWriter x blocked/unblocked x BytesIO/real temp file x 5 record sets (empty, small, >1012 bytes, ending on a block edge, many)'
 
 
 def reuse(inp):
@@ -40,7 +40,45 @@ def reuse(inp):
     return None
 
 
+def inside(inp):
+    """finalisations reached INSIDE a with-block (explicit close() calls, a nested with on the same writer), then the block's
+    own exit, then more: the file is finalised once and stays as the first finalisation left it"""
+    import io
+    from cardutil.mciipm import VbsWriter, IpmWriter, VbsReader
+    blocked = inp['blocked']
+    f = io.BytesIO()
+    recs = [V.rec_bytes(n, i) for i, n in enumerate(inp['lens'])]
+
+    def fin(w, h):
+        if h == 'close':
+            w.close()
+        elif h == 'exit':
+            w.__exit__(None, None, None)
+        else:
+            with w:
+                pass
+    w = VbsWriter(f, blocked=blocked)
+    with w:
+        for r in recs:
+            w.write(r)
+        for h in inp['inner']:
+            fin(w, h)
+    for h in inp['outer']:
+        fin(w, h)
+    data = f.getvalue()
+    want = V.ref_frame(recs)
+    if blocked:
+        want = V.ref_block(want)
+    if data != want:
+        back, end, _ = V.read_all(VbsReader(io.BytesIO(data), blocked=blocked))
+        return 'inside-with: %d records written in a with-block, then %s inside the block, the block exit, then %s (blocked=%s): the file is not the finalised form (reads back %d records, %s)' % (
+            len(recs), inp['inner'], inp['outer'], blocked, len(back), end)
+    return None
+
+
 def oracle(inp):
+    if inp.get('kind') == 'inside':
+        return inside(inp)
     if inp.get('kind') == 'reuse':
         return reuse(inp)
     if inp.get('kind') == 'hist':
@@ -52,6 +90,12 @@ def cases(tier, rng):
     for blocked in (False, True):
         for hows in (['close'], ['exit'], ['with'], ['close', 'with'], ['with', 'with'], ['with', 'close'], ['exit', 'with', 'close'], ['close', 'exit', 'with']):
             yield {'kind': 'reuse', 'blocked': blocked, 'hows': hows, 'files': [[5, 300], [1500], [7], []]}
+    for blocked in (False, True):
+        for n in (1, 2, 3):
+            for inner in itertools.product(['close', 'with', 'exit'], repeat=n):
+                for outer in ([], ['close'], ['with', 'close']):
+                    for lens in ([5, 300], [1500], []):
+                        yield {'kind': 'inside', 'blocked': blocked, 'inner': list(inner), 'outer': outer, 'lens': lens}
     for n in (1, 2, 3):
         for hows in itertools.product(['close', 'exit'], repeat=n):
             for cls in ('VbsWriter', 'IpmWriter'):
